@@ -185,6 +185,12 @@ BRIDGE_NEEDS = {
     "QhttpBridge.Proxy.OnUpstreamConnected": ["ProxySocket::onUpstreamConnected"],
 }
 
+# bridge modules whose proofs contain a hand-made induction over a translated loop: a harmless rewrite of that loop
+# (another iteration order, another accumulator) yields a function that is still equal to the model but that THIS proof does
+# not cover.  For these, a translated function that is not re-proved is recorded (`bridge_modules_not_reproved`) and falls
+# back to the correspondence tie, like an untranslatable one; they add assurance on trees where they check, not detection.
+SOFT_BRIDGES = ["QhttpBridge.Proxy.OnUpstreamConnected"]
+
 BRIDGES = {
     "C16": RANGE_ALL,
     "C18": ["QhttpBridge.Ack"] + SOCK_ALL,
